@@ -48,6 +48,9 @@ def layouts(tier):
                       ('S2', [M('Get', 'S2.Get'), M('ge', 'S2.ge')])]))
     L.append(('two-aux', [('A1', [M('get', 'A1.get')], 'aux'), ('S1', [M('get', 'S1.get'), M('get_', 'S1.get_')]),
                           ('A2', [M('get', 'A2.get'), M('get_', 'A2.get_')], 'aux')]))
+    # two different service classes that carry the same class name (what a service factory function produces)
+    L.append(('same-named-services', [('S', [M('get', 'Sa.get'), M('getx', 'Sa.getx')]), ('S', [M('Get', 'Sb.Get'), M('ge', 'Sb.ge')]),
+                                      ('S2', [M('get_', 'S2.get_')])]))
     if tier == 'thorough':
         L.append(('four', [('S1', [M('get', 'S1.get'), M('ge', 'S1.ge')]), ('S2', [M('Get', 'S2.Get'), M('getx', 'S2.getx')]),
                            ('S3', [M('GET', 'S3.GET'), M('_get', 'S3._get')]), ('S4', [M('get_', 'S4.get_'), M('get.x', 'S4.get.x')])]))
@@ -66,6 +69,7 @@ def collisions():
                                       ('S2', [M('get', 'S2.get', _in_message_name='{urn:vf:beta}get', _out_message_name='{urn:vf:beta}getResponse')])]))
     C.append(('primary-aux-aux-primary', [('S1', [M('get', 'S1.get')]), ('A1', [M('get', 'A1.get')], 'aux'), ('A2', [M('get', 'A2.get')], 'aux'),
                                           ('S2', [M('get', 'S2.get', _in_message_name='{urn:vf:beta}get', _out_message_name='{urn:vf:beta}getResponse')])]))
+    C.append(('same-named-services-same-method', [('S', [M('get', 'Sa.get')]), ('S', [M('get', 'Sb.get')])]))
     C.append(('two-operation-names', [('S1', [M('f1', 'S1.f1', _operation_name='op')]), ('S2', [M('f2', 'S2.f2', _operation_name='op')])]))
     return C
 
